@@ -40,7 +40,7 @@ def main():
     patch = os.path.join(src, "patch.diff")
     demo_bin = os.path.join(src, "demo_confirm")
     cpps = sorted(glob.glob(os.path.join(src, "*.cpp")))
-    build_demo = "g++ -std=c++20 -O1 -fopenmp -I%s/include -I%s %s %s/_build/libGMGPolarLib.a %s/_build/libPolarGrid.a %s/_build/libInputFunctions.a -o %s" % (
+    build_demo = "g++ -std=c++20 -O1 -fopenmp -DGMGPOLAR_VERIF -I%s/include -I%s %s %s/_build/libGMGPolarLib.a %s/_build/libPolarGrid.a %s/_build/libInputFunctions.a -o %s" % (
         a.wt, src, " ".join(cpps), a.wt, a.wt, a.wt, demo_bin)
     run_demo = "%s %s" % (demo_bin, a.args)
     log = {}
